@@ -450,10 +450,18 @@ def write_replay(prop: str, seed: int, trace: Dict[str, Any], failure: Dict[str,
     d = os.environ.get("VERIF_REPLAY_DIR") or os.path.join(VERIF, "replays")
     os.makedirs(d, exist_ok=True)
     path = os.path.join(d, f"{prop}-{seed}.json")
+    n = 1
+    while path in _REPLAYS_WRITTEN:  # several different violations found in one run
+        n += 1
+        path = os.path.join(d, f"{prop}-{seed}-{n}.json")
+    _REPLAYS_WRITTEN.add(path)
     with open(path, "w") as f:
         json.dump({"property": prop, "seed": seed, "trace": trace, "failure": failure}, f,
                   indent=1, sort_keys=True, default=_json_default)
     return path
+
+
+_REPLAYS_WRITTEN: set = set()
 
 
 def merge_counts(dst: Dict[str, int], src: Dict[str, int]) -> None:
